@@ -20,6 +20,8 @@ type Engine struct {
 	MinThorough int           // minimum runs in the thorough tier
 	RunTimeout  time.Duration // per-run wall watchdog (harness safety net, generous)
 	Note        string
+	Procs       int // GOMAXPROCS of each worker process (default 2)
+	Workers     int // worker processes (default: all)
 	// External engines are not choice-stream simulations (race detector run);
 	// they are driven by ExternalRun instead of Run.
 	External bool
@@ -39,6 +41,10 @@ type Property struct {
 	// NonTrivial decides whether a run counts towards distinct_nontrivial.
 	NonTrivial func(o *core.Outcome) bool
 }
+
+// Variant is the binary flavour this process is ("plain", "instr", "race");
+// set at link time by lib/build.sh.
+var Variant = "plain"
 
 var all = map[string]*Property{}
 
